@@ -29,7 +29,7 @@ def _case(draw):
     fam = draw(st.sampled_from(["lin", "quad", "cub", "rq"]))
     bins = draw(st.integers(1, 8))
     c = {"fam": fam, "bins": bins, "precise": draw(st.booleans()),
-         "regime": draw(st.sampled_from(["zero", "equal", "random", "random", "nonuniform", "nonuniform", "fresh"])),
+         "regime": draw(st.sampled_from(["zero", "equal", "random", "random", "nonuniform", "nonuniform", "flatbin", "flatbin", "fresh"])),
          "sigma": draw(st.sampled_from([0.3, 1.0, 3.0])), "seed": draw(st.integers(0, 10 ** 6))}
     if draw(st.booleans()):
         c["tb"] = draw(st.sampled_from([1.0, 0.5, 3.0, 5.0, 0.01, 40.0, 1e3, 0.1, 0.3]))
@@ -170,8 +170,8 @@ def run_case(case):
                 gen = torch.Generator().manual_seed(case["seed"])
                 for p in m.parameters():
                     p.copy_(torch.randn(p.shape, generator=gen, dtype=p.dtype) * case["sigma"])
-        elif reg == "nonuniform":
-            zoo.apply_regime(m, "nonuniform", case["seed"])
+        elif reg in ("nonuniform", "flatbin"):
+            zoo.apply_regime(m, reg, case["seed"])
             with torch.no_grad():
                 for p in m.parameters():
                     p.mul_(8.0 / 6.0)
